@@ -177,7 +177,7 @@ pub fn generate(prop: &str, base_seed: u64, batch: &str, run: u64) -> Scenario {
             config2: None,
             threads: vec![],
             sched: SchedSpec { fine: false, strategy: Strategy::RoundRobin, seed: 0, sites: 0, choices: vec![] },
-            knobs: vec![("io_seed".into(), (rng.next() >> 1) as i64), ("group".into(), (run % crate::ioworld::GROUPS.len() as u64) as i64)],
+            knobs: vec![("io_seed".into(), (rng.next() >> 1) as i64), ("group".into(), (run % 13) as i64)],
         },
         "C11" => crate::crash::gen_c11(base_seed, batch, run, &mut rng),
         "C18" => crate::twin::gen_c18(base_seed, batch, run, &mut rng),
@@ -339,6 +339,7 @@ pub fn check_in_process(scn: &Scenario) -> Checked {
     match scn.prop.as_str() {
         "C01" | "C02" | "C03" | "C04" | "C07" => check_coarse(scn),
         "C10" => crate::fine::check_c10(scn),
+        #[cfg(feature = "stdworld")]
         "C20" => crate::ioworld::check_c20(scn),
         "C11" => crate::crash::check_c11(scn),
         "C18" => crate::twin::check_c18(scn),
